@@ -13,7 +13,7 @@ PROP = dict(
             "(coq/Url/Resolve.v) on URL ASTs of the reference grammar (coq/Url/RefUrl.v: in_grammar); text -> AST parsing is "
             "bypassed by generating ASTs and rendering them. Outside the grammar (IDN, IPv6, numeric hosts, backslashes, "
             "control bytes, bytes that net/url re-escapes in a path) there is no theorem, only the monitored sample. "
-            "The model follows the code after fixes/C09-query-order.diff and fixes/C09-base-choice.diff; the code as found is kept "
+            "The model follows the code after the two repairs committed to /repo (8ac6930 query order, ce05a6f base choice; patches in fixes/C09-*.diff); the code as found is kept "
             "as reencode_orig / normalize_orig with refutation lemmas. Three third-party deviations are known findings "
             "(ada-dotpath, invalid-utf8, netpath-reescape).",
     assumptions=["on the reference grammar ada + net/url behave as the reference normaliser says (URL standard: lower-casing, default port, "
